@@ -54,7 +54,7 @@ class Null(Expression):
         return other is None or isinstance(other, Null)
 
     def __str__(self) -> str:
-        return ""
+        return "nil"
 
     def __hash__(self) -> int:
         return hash(self.__class__)
